@@ -337,9 +337,9 @@ Proof.
             | [] => []
             | (k, v) :: r => ((if marked (path ++ [esc_tok k])%list then YTag sd_tag (YStr k) else YStr k), ytree marked (path ++ [esc_tok k])%list v) :: go r
             end).
-    assert (Hnames : flat_map (fun kv : yaml * yaml => let '(k, _) := kv in match stripped_name k with Some s => [s] | None => [] end) (goy kvs) = map fst kvs).
+    assert (Hnames : flat_map (fun kv : yaml * yaml => let '(k, _) := kv in match member_name k with Some s => [s] | None => [] end) (goy kvs) = map fst kvs).
     { clear. induction kvs as [|[k v] r IHr]; [reflexivity|]. cbn [goy flat_map map fst]. fold goy. rewrite IHr.
-      destruct (marked (path ++ [esc_tok k])%list); cbn [stripped_name]; [rewrite String.eqb_refl|]; reflexivity. }
+      destruct (marked (path ++ [esc_tok k])%list); unfold member_name; cbn [stripped_name]; [rewrite String.eqb_refl|]; reflexivity. }
     rewrite Hnames, (has_dup_sorted _ Hs). cbn [orb].
     clear Hnames Hs Hw. induction IH as [|[k v] r Hv _ IHr]; [reflexivity|].
     inversion Hall as [|? ? H1 H2]; subst. cbn [snd fst] in *. cbn [goy existsb]. fold goy.
